@@ -20,7 +20,11 @@ TRUSTED = [
     "tie T2: hand model SparseV.Model.Getitem (normalize_index tuple logic, COO getitem incl. one/adjacent advanced indices) compared with the "
     "implementation on representation (coords order, data, shape, fill, scalar-vs-array, error class)",
     "Spec.pyAdjust is a transcription of CPython's PySlice_AdjustIndices, validated each run against slice.indices()",
-    "GCXS and DOK reads are covered by the NumPy oracle only (no model of the GCXS selection kernels)",
+    "tie T2 (GCXS): hand model SparseV.Model.GcxsIndex (_getitem, get_single_element, get_array_selection, get_slicing_selection = the loops of "
+    "Model.Loops, convert_to_flat, is_sorted) compared with x[key] on the returned (data, indices, indptr, shape, compressed_axes, fill) and, "
+    "kernel by kernel, with every call the real code makes to convert_to_flat / get_*_selection / is_sorted / uncompress_dimension (recorded "
+    "arguments replayed through the model) plus direct calls of the jitted kernels on random well-formed CSR triples",
+    "GCXS keys containing None, several index arrays, 0-d/1-d GCXS arrays and x[i, j, ...] go through COO in the real code: NumPy oracle only; DOK reads: oracle only",
 ]
 
 
@@ -166,6 +170,183 @@ def leg_a(ctx, rng, n):
             ctx.fail("A", "model:getitem", case, f"model {out} implementation {want}")
 
 
+# ---------------------------------------------------------------------------------------------------
+# GCXS: model of _compressed/indexing.py vs the implementation, public level and kernel level
+# ---------------------------------------------------------------------------------------------------
+
+def gcxs_index(rng, shp):
+    """an index expression that stays on the `_getitem` path of GCXS `getitem`: no None, at most one index array (int or
+    bool), not (all integers + Ellipsis); drawn from the property's grammar (rand_index)"""
+    if rng.random() < 0.08 and all(d > 0 for d in shp):  # all integers: get_single_element
+        vals = [int(rng.integers(-d, d)) for d in shp]
+        if rng.random() < 0.15:
+            vals[int(rng.integers(len(vals)))] = int(rng.choice([shp[0] + 7, -shp[0] - 9]))
+        return tuple(vals), [["i", v] for v in vals]
+    for _ in range(200):
+        idx, js = rand_index(rng, shp)
+        kinds = [e[0] for e in js]
+        if "n" in kinds or sum(k in ("a", "b") for k in kinds) > 1:
+            continue
+        n_axes = sum(k in ("i", "s", "a", "b") for k in kinds)
+        if "e" in kinds and n_axes == len(shp) and all(k in ("i", "e") for k in kinds):
+            continue
+        return idx, js
+    return (slice(None),), [["s", None, None, None]]
+
+
+class KernelTrace:
+    """records every call `x[key]` makes to the numba kernels of _compressed/indexing.py (arguments and results)"""
+
+    NAMES = ("convert_to_flat", "get_slicing_selection", "get_array_selection", "is_sorted", "uncompress_dimension")
+
+    def __init__(self):
+        from sparse.numba_backend._compressed import indexing as CI
+
+        self.CI = CI
+        self.calls = []
+        self.saved = {}
+
+    def __enter__(self):
+        for n in self.NAMES:
+            f = getattr(self.CI, n)
+            self.saved[n] = f
+
+            def wrap(*a, _f=f, _n=n):
+                r = _f(*a)
+                self.calls.append((_n, a, r))
+                return r
+            setattr(self.CI, n, wrap)
+        return self
+
+    def __exit__(self, *exc):
+        for n, f in self.saved.items():
+            setattr(self.CI, n, f)
+
+
+def _ints(a):
+    return [int(v) for v in np.asarray(a).reshape(-1).tolist()]
+
+
+def kernel_requests(calls):
+    """driver requests + expected answers for the recorded kernel calls"""
+    out = []
+    for name, a, r in calls:
+        if name == "convert_to_flat":
+            inds, shape = [_ints(v) for v in a[0]], _ints(a[1])
+            if any(v < 0 for l in inds for v in l):
+                continue
+            out.append(("kernel:convert_to_flat", ["gx_convert_to_flat", inds, shape], {"ok": _ints(r)}, {"inds": inds, "shape": shape}))
+        elif name in ("get_slicing_selection", "get_array_selection"):
+            data, indices, _ptr, starts, ends, col = a
+            op = "gx_slicing_selection" if name == "get_slicing_selection" else "gx_array_selection"
+            rd, ri, rp = r
+            case = {"indices": _ints(indices), "starts": _ints(starts), "ends": _ints(ends), "col": _ints(col)}
+            out.append((f"kernel:{name}", [op, case["indices"], case["starts"], case["ends"], case["col"]],
+                        {"indices": _ints(ri), "indptr": _ints(rp), "data": _ints(rd), "arr_data": _ints(data)}, case))
+        elif name == "is_sorted":
+            xs = _ints(a[0])
+            out.append(("kernel:is_sorted", ["gx_is_sorted", xs], {"ok": bool(r)}, {"arr": xs}))
+        elif name == "uncompress_dimension":
+            ip = _ints(a[0])
+            out.append(("kernel:uncompress_dimension", ["uncompress", ip], {"ok": _ints(r)}, {"indptr": ip}))
+    return out
+
+
+def check_kernel(ctx, fam, req, want, case, out):
+    ctx.case("A:" + fam, case)
+    if "arr_data" in want:  # selection kernels: the model returns positions into arr_data
+        if "ok" not in out:
+            ctx.fail("A", fam, case, f"model {out} implementation {want}")
+            return
+        m = out["ok"]
+        got = {"indices": m["indices"], "indptr": m["indptr"], "data": [want["arr_data"][p] if p < len(want["arr_data"]) else None for p in m["ind_list"]]}
+        ref = {k: want[k] for k in ("indices", "indptr", "data")}
+        if got != ref:
+            ctx.fail("A", fam, case, f"model {got} implementation {ref}")
+    elif out != want:
+        ctx.fail("A", fam, case, f"model {out} implementation {want}")
+
+
+def rand_csr(rng):
+    """a random well-formed CSR triple (rows of strictly increasing column numbers, empty rows, zero extents)"""
+    R, C = int(rng.choice([0, 1, 2, 3, 5])), int(rng.choice([0, 1, 2, 4, 7, 12]))
+    indptr, indices = [0], []
+    for _ in range(R):
+        k = int(rng.integers(0, C + 1)) if rng.random() < 0.8 else 0
+        indices += sorted(int(v) for v in rng.choice(C, size=k, replace=False)) if k else []
+        indptr.append(len(indices))
+    return R, C, indptr, indices
+
+
+def leg_gcxs(ctx, rng, n_public, n_kernel):
+    import sparse
+    import gx
+    from sparse.numba_backend._compressed import indexing as CI
+
+    # ---- public level, with the kernel calls of each evaluation recorded
+    reqs, metas, kreqs = [], [], []
+    for _ in range(n_public):
+        x, d, fill, route = gx.rand_gcxs(rng)
+        idx, js = gcxs_index(rng, x.shape)
+        xj = gx.gcxs_json(x)
+        case = {"x": xj, "route": route, "index": js}
+        with KernelTrace() as tr:
+            try:
+                want = gx.result_json(x[idx])
+            except Exception as e:  # noqa: BLE001
+                want = {"err": impl.err_class(e)}
+        reqs.append(["gx_getitem", xj, js])
+        metas.append((case, want))
+        kreqs += kernel_requests(tr.calls)
+    outs = ctx.driver.run(reqs)
+    for (case, want), out in zip(metas, outs):
+        ctx.case("A:gcxs_getitem", case, nontrivial=bool(case["x"]["data"]))
+        ctx.count("gcxs_public_" + ("err" if "err" in want else "scalar" if "scalar" in want["ok"] else "array"))
+        fam = ctx.cov.setdefault("gcxs_index_entry_kinds", {})
+        for e in case["index"]:
+            k = e[0] + ("-" if e[0] == "s" and (e[3] or 1) < 0 else "")
+            fam[k] = fam.get(k, 0) + 1
+        if out != want:
+            ctx.fail("A", "model:gcxs_getitem", case, f"model {str(out)[:400]} implementation {str(want)[:400]}")
+    # ---- the recorded kernel calls, replayed through the model
+    kouts = ctx.driver.run([k[1] for k in kreqs])
+    for (fam, req, want, case), out in zip(kreqs, kouts):
+        check_kernel(ctx, fam, req, want, case, out)
+    # ---- direct calls of the jitted kernels on random well-formed CSR triples
+    dreqs = []
+    for _ in range(n_kernel):
+        R, C, indptr, indices = rand_csr(rng)
+        data = np.arange(100, 100 + len(indices), dtype=np.int64)
+        rows = [int(v) for v in rng.integers(0, R, size=int(rng.integers(0, 5)))] if R else []
+        k = int(rng.integers(0, 6))
+        cols = [int(v) for v in rng.integers(0, max(C, 1), size=k)] if C else []
+        if rng.random() < 0.5:
+            cols = sorted(set(cols))
+        sorted_cols = all(b > a for a, b in zip(cols, cols[1:]))
+        ip = np.asarray(indptr, dtype=np.int64)
+        starts, ends = ip[:-1][rows] if R else ip[:0], ip[1:][rows] if R else ip[:0]
+        names = ["get_array_selection"] + (["get_slicing_selection"] if sorted_cols else [])
+        calls = []
+        for nm in names:
+            out_ptr = np.empty(len(rows) + 1, dtype=np.int64)
+            out_ptr[0] = 0
+            a = (data, np.asarray(indices, dtype=np.int64), out_ptr, np.asarray(starts, dtype=np.int64), np.asarray(ends, dtype=np.int64),
+                 np.asarray(cols, dtype=np.int64))
+            calls.append((nm, a, getattr(CI, nm)(*a)))
+        if len(calls) == 2:
+            ra, rs = calls[0][2], calls[1][2]
+            if not all(np.array_equal(u, v) for u, v in zip(ra, rs)):
+                ctx.fail("A", "kernel:agree", {"indptr": indptr, "indices": indices, "rows": rows, "cols": cols},
+                         "get_array_selection and get_slicing_selection differ on a sorted column list")
+        dreqs += kernel_requests(calls)
+        arr = [int(v) for v in rng.integers(-3, 6, size=int(rng.integers(0, 5)))]
+        dreqs += kernel_requests([("is_sorted", (np.asarray(arr, dtype=np.int64),), CI.is_sorted(np.asarray(arr, dtype=np.int64)))])
+    douts = ctx.driver.run([k[1] for k in dreqs])
+    for (fam, req, want, case), out in zip(dreqs, douts):
+        check_kernel(ctx, fam + ":direct", req, want, case, out)
+    ctx.notes["gcxs_leg"] = {"public": n_public, "recorded_kernel_calls": len(kreqs), "direct_kernel_calls": len(dreqs)}
+
+
 def leg_c(ctx, rng, n, formats=("coo", "gcxs", "dok")):
     import sparse
 
@@ -192,12 +373,16 @@ def leg_c(ctx, rng, n, formats=("coo", "gcxs", "dok")):
 def run(ctx):
     ctx.trusted = TRUSTED
     ctx.assumptions = ["NumPy indexing is the specification", "index expressions are drawn from the grammar stated in the property"]
-    core.prove(ctx, PID, uses=["replaceNone", "posifySlice", "posifyInt", "clipSlice", "checkIndexInt"])
+    core.prove(ctx, PID, extra_targets=["SparseV.Props.C02Gcxs"], uses=["replaceNone", "posifySlice", "posifyInt", "clipSlice", "checkIndexInt"])
     t1_validate(ctx, full=not ctx.quick)
     rng = gen.rng_for(ctx.seed, PID)
     leg_a(ctx, rng, 600 if ctx.quick else 6000)
+    leg_gcxs(ctx, gen.rng_for(ctx.seed, PID + ":gcxs"), 500 if ctx.quick else 6000, 400 if ctx.quick else 5000)
     leg_c(ctx, rng, 150 if ctx.quick else 2000)
     boundscheck.leg(ctx, PID, 25 if ctx.quick else 400, classify=findings.classify)  # memory safety of the compiled kernels
     ctx.cov["rule"] = ("T1 grid: (start,stop,step,dim) boxes, generated vs Python; leg A: random COO (rank 0-4) x random index tuple from the "
-                       "grammar, model vs implementation on representation; leg C: COO/GCXS/DOK vs NumPy incl. scalar rule and IndexError; "
+                       "grammar, model vs implementation on representation; leg A (GCXS): random GCXS arrays of rank 2-4 (every compressed_axes, CSR/CSC, unsorted "
+                       "constructor input, change_compressed_axes, zero extents, empty rows) x index tuples on the _getitem path (ints, slices of both signs, one "
+                       "int/bool index array, Ellipsis), model vs x[key] on (data, indices, indptr, shape, compressed_axes, fill), every recorded kernel call "
+                       "replayed through the model, plus direct kernel calls on random CSR triples; leg C: COO/GCXS/DOK vs NumPy incl. scalar rule and IndexError; "
                        "non-trivial = array stores at least one element; distinct by content hash")
